@@ -233,9 +233,13 @@ func c11Rules(p *core.Prog, r *core.Run) {
 			case "Version", "KEM":
 				consts[a.Name] = v.Name
 			case "KDF":
-				consts["KDF:"+v.Name] = "1"
+				for _, a := range v.Alts() {
+					consts["KDF:"+a.Name] = "1"
+				}
 			case "AEAD":
-				aeads = append(aeads, v.Name)
+				for _, a := range v.Alts() {
+					aeads = append(aeads, a.Name)
+				}
 			case "PublicKey":
 				consts["PublicKey"] = v.String()
 			}
